@@ -1,6 +1,7 @@
 import Arc.Model.C15
 import Arc.Proofs.C15.Mask
 import Arc.Proofs.C15.Round
+import Arc.Proofs.C15.Tokens
 import Arc.Generated.C15
 /-!
 # C15 — SQL normalisation agrees with DuckDB's lexer and is reversible
@@ -156,6 +157,26 @@ theorem C15_roundtrip_partial (s : Bytes) (hq : Bool)
     have := roundtrip_gen (mSegs s) 0 [] [] hNoIdent (by simpa [C15_mask_partition] using hNoDunder)
     simpa [C15_mask_partition] using this
 
+/-- **C15_roundtrip_tokens.** For EVERY input (quoted identifiers and their de-duplication
+included): the masked text is the token list `renderT` with each placeholder token spelled out, the
+masks are `renderT`'s, and restoring the placeholder TOKENS (first occurrence for `__STR_n__`, every
+occurrence for `__IDENT_n__`) returns the input. Identifiers share a placeholder exactly when their
+token text is byte-for-byte equal (`renderT` looks the text up; tied to the source by
+`C15_ident_dedup_key_tied`), so case variants such as `"Host"` / `"host"` keep separate masks. What the
+byte-level `C15_roundtrip_partial` adds is only that placeholder TEXT cannot be confused with user text. -/
+theorem C15_roundtrip_tokens (s : Bytes) :
+    (mask s true).1 = flatT (renderT 0 [] (mSegs s)).1 ∧
+    (mask s true).2 = (renderT 0 [] (mSegs s)).2.map maskOfT ∧
+    unmaskT (renderT 0 [] (mSegs s)).1 (renderT 0 [] (mSegs s)).2 = bytesT s := by
+  have h := render_eq_renderT (mSegs s) 0 []
+  have r := roundtripT_gen (mSegs s) 0 [] [] (by intro e he; simp at he)
+  refine ⟨by simpa [mask, imBytes, imTok] using h.1, by simpa [mask, imBytes, imTok] using h.2, ?_⟩
+  simpa [bytesT, C15_mask_partition] using r
+
+/-- `"Host" "host" "Host"`: two masks (`"Host"` shared by the 1st and 3rd occurrence, `"host"` its own) -/
+example : (renderT 0 [] (mSegs ([34, 72, 111, 115, 116, 34, 32, 34, 104, 111, 115, 116, 34, 32, 34, 72, 111, 115, 116, 34] : Bytes))).2 = [(true, 0, [34, 72, 111, 115, 116, 34]), (true, 1, [34, 104, 111, 115, 116, 34])] ∧
+    unmask (mask ([34, 72, 111, 115, 116, 34, 32, 34, 104, 111, 115, 116, 34, 32, 34, 72, 111, 115, 116, 34] : Bytes) true).1 (mask ([34, 72, 111, 115, 116, 34, 32, 34, 104, 111, 115, 116, 34, 32, 34, 72, 111, 115, 116, 34] : Bytes) true).2 = ([34, 72, 111, 115, 116, 34, 32, 34, 104, 111, 115, 116, 34, 32, 34, 72, 111, 115, 116, 34] : Bytes) := by decide
+
 /-- the hypotheses hold for `SELECT 'it''s' FROM t_1 WHERE a = $$x$$ -- c` (two masks) -/
 example : (mSegs ([83, 69, 76, 69, 67, 84, 32, 39, 105, 116, 39, 39, 115, 39, 32, 70, 82, 79, 77, 32, 116, 95, 49, 32, 87, 72, 69, 82, 69, 32, 97, 32, 61, 32, 36, 36, 120, 36, 36, 32, 45, 45, 32, 99] : Bytes)).all noIdentSeg = true ∧ hasPair 95 95 ([83, 69, 76, 69, 67, 84, 32, 39, 105, 116, 39, 39, 115, 39, 32, 70, 82, 79, 77, 32, 116, 95, 49, 32, 87, 72, 69, 82, 69, 32, 97, 32, 61, 32, 36, 36, 120, 36, 36, 32, 45, 45, 32, 99] : Bytes) = false ∧
     (mask ([83, 69, 76, 69, 67, 84, 32, 39, 105, 116, 39, 39, 115, 39, 32, 70, 82, 79, 77, 32, 116, 95, 49, 32, 87, 72, 69, 82, 69, 32, 97, 32, 61, 32, 36, 36, 120, 36, 36, 32, 45, 45, 32, 99] : Bytes) true).2.length = 2 := by decide
@@ -188,6 +209,11 @@ theorem C15_placeholder_formats_tied :
 masks with `strings.ReplaceAll`, as `unmaskStep` models. -/
 theorem C15_unmask_mode_tied :
     Arc.Generated.C15.unmaskStrCount = 1 ∧ Arc.Generated.C15.unmaskIdentAll = true := by decide
+
+/-- **C15_ident_dedup_key_tied.** Quoted identifiers share a placeholder only when their token text is
+byte-for-byte identical (`render` looks the whole token up): the key of the `identPlaceholders` map in
+the current source is the token text itself, not a normalised form. -/
+theorem C15_ident_dedup_key_tied : Arc.Generated.C15.identDedupKeyIsTokenText = true := by decide
 
 /-- **C15_sites_mask_before_strip.** Every function of `internal/api/query.go` that strips comments
 masks first — the order `normalize` models (and the reason a quote inside a comment is a finding). -/
